@@ -341,7 +341,8 @@ class C12(Property):
         steps = self.history(case)
         # over-notification (counter moves although the serialization did not change, e.g. an attribute
         # that is not serialized for this kind of element) is allowed by the property
-        return {'steps': [[s['moved'] or not s['changed'], s['decreased'], s['stale']] for s in steps]}
+        return {'steps': [[s['moved'] or not s['changed'], s['decreased'], s['stale']] for s in steps],
+                'n_changed': sum(1 for s in steps if s['changed'])}
 
     def requests(self, case):
         if case['kind'] == 'census':
@@ -355,7 +356,8 @@ class C12(Property):
         if case['kind'] == 'census':
             return {'unclassified': []}
         steps = self.history(case)
-        return {'steps': [[m['moved'] or not s['changed'], m['decreased'], False] for m, s in zip(replies[0]['steps'], steps)]}
+        return {'steps': [[m['moved'] or not s['changed'], m['decreased'], False] for m, s in zip(replies[0]['steps'], steps)],
+                'n_changed': sum(1 for s in steps if s['changed'])}
 
     def flags_hit(self, case, replies):
         if case['kind'] == 'history' and any(s['decreased'] for s in replies[0]['steps']):
@@ -391,10 +393,10 @@ class C12(Property):
                 n -= 1
                 yield dict(case, length=n)
 
-    def nontrivial(self, case):
+    def nontrivial_obs(self, case, obs):
         if case['kind'] == 'census':
             return 'census'
-        return json.dumps(case, sort_keys=True)
+        return json.dumps(case, sort_keys=True) if isinstance(obs, dict) and obs.get('n_changed', 0) >= 3 else None
 
     def sample_view(self, case):
         if case['kind'] == 'census':
